@@ -1251,9 +1251,11 @@ func (s *Server) cleanupExpiredLeases() {
 			pool.Release(lease.IP)
 		}
 
-		// Remove from fast path cache (MAC, VLAN pair and circuit-id entries)
+		// Remove from fast path cache (MAC, VLAN pair and circuit-id entries) and end
+		// the session as a RELEASE does: Accounting-Stop, QoS policy, NAT block
 		if hwAddr, _ := net.ParseMAC(mac); hwAddr != nil {
 			s.removeFromFastPathCache(hwAddr, lease)
+			s.releaseSessionResources(hwAddr, lease, radius.TerminateCauseSessionTimeout)
 		}
 	}
 	s.leasesMu.Unlock()
